@@ -14,6 +14,7 @@ import KafkaVerif.Gen.GroupBalancerSel
 import KafkaVerif.Lemmas.GroupGlue
 import KafkaVerif.Lemmas.GroupWire
 import KafkaVerif.Lemmas.GroupRound
+import KafkaVerif.Lemmas.GroupWireRd
 import KafkaVerif.Model.GroupRun
 
 namespace KV.C14
@@ -79,7 +80,9 @@ theorem structure_regenerated :
     Gen.GroupBalancer.topics32FreshPerMember = true ∧
     Gen.GroupBalancer.topicMetadataReaders = (2, 2) ∧
     Gen.GroupBalancer.extractTopicsIsFirstSeenThenSorted = true ∧
-    Gen.GroupBalancer.makeAssignmentsRangesOverOwnTopics = true := by decide
+    Gen.GroupBalancer.makeAssignmentsRangesOverOwnTopics = true ∧
+    Gen.GroupBalancer.assignTopicPartitionsDataflow = true ∧
+    Gen.GroupBalancer.nextGenerationDataflow = true := by decide
 
 /-! ## 1. Range -/
 
@@ -734,5 +737,77 @@ theorem accepted_trace_reachable (P : Params) (es : List Ev) (s : St) (h : runB 
   runB_reachable P es {} s 0 Reachable.init h
 
 end Round
+
+/-! ## 9. The wire side of an assignment, end to end, over the REGENERATED legacy codec (Gen/Legacy.lean)
+
+The leader's SyncGroup v0 request body is written by `syncGroupRequestV0.writeTo`, the member's answer is read by
+`syncGroupResponseV0.readFrom`, the JoinGroup answer by `joinGroupResponse.readFrom`, a member's metadata by
+`groupMetadata.readFrom` — all four re-extracted from syncgroup.go / joingroup.go on every run (C04's translator, with
+generated `read_write` theorems).  `groupAssignment` (the per-member payload) is the hand model of §7, read here in the same
+parser monad.  The coordinator is specification: it parses the request body (`readSyncRequest`) and answers a member
+with the bytes listed under its id.  (Layout of the request fields against Kafka's SyncGroup v0: `KV.GroupReq.sync_layout`,
+b-group; response frames against the regenerated parser programs: `KV.GroupResp`.) -/
+section Wire
+open KV.GroupWireRd KV.Gen.Legacy KV.Legacy
+
+/-- the body of the leader's SyncGroup request for the assignments `A` (member id bytes ↦ entries of its topic map in
+the order `range` yields them) -/
+def syncRequestOf (grp : Bytes) (gen : Int) (leader : Bytes) (A : List (Bytes × List (Bytes × List Int))) : syncGroupRequestV0 :=
+  ⟨grp, gen, leader, A.map fun a => ⟨a.1, KV.GroupWire.writeAssignment ⟨1, a.2, none⟩⟩⟩
+
+/-- every member receives exactly what the leader computed for it, byte for byte: the coordinator finds under the
+member's id the payload the leader wrote, the member's `syncGroupResponseV0.readFrom` returns that payload, and
+`groupAssignment.readFrom` turns it back into the member's entries, in order, with nothing left over -/
+theorem wire_delivery (grp : Bytes) (gen : Int) (leader : Bytes) (A : List (Bytes × List (Bytes × List Int)))
+    (hg : grp.length < 2 ^ 15) (hgen : inRng 32 gen) (hl : leader.length < 2 ^ 15) (hn : A.length < 2 ^ 31)
+    (hA : ∀ a ∈ A, a.1.length < 2 ^ 15 ∧ a.2.length < 2 ^ 31 ∧ (∀ e ∈ a.2, KV.GroupWireRd.WFEntry e) ∧
+      (KV.GroupWire.writeAssignment ⟨1, a.2, none⟩).length < 2 ^ 31)
+    (m : Bytes) (a : Bytes × List (Bytes × List Int)) (hfind : A.find? (fun x => x.1 == m) = some a) :
+    ∃ t, readSyncRequest (syncGroupRequestV0.writeTo (syncRequestOf grp gen leader A)) = some (t, []) ∧
+      ∃ x, t.GroupAssignments.find? (fun x => x.MemberID == m) = some x ∧
+        ∃ resp, syncGroupResponseV0.readFrom syncGroupResponseV0.zero
+            (syncGroupResponseV0.writeTo ⟨0, x.MemberAssignments⟩) = some (resp, []) ∧
+          KV.GroupWireRd.readAssignment resp.MemberAssignments = some ((1, a.2, []), []) := by
+  have ha := hA a (List.mem_of_find?_eq_some hfind)
+  have hok : SyncReqOk (syncRequestOf grp gen leader A) := by
+    refine ⟨hg, hgen, hl, by simpa [syncRequestOf] using hn, ?_⟩
+    intro x hx
+    simp only [syncRequestOf, List.mem_map] at hx
+    obtain ⟨b, hb, rfl⟩ := hx
+    exact ⟨(hA b hb).1, (hA b hb).2.2.2⟩
+  have hreq := readSyncRequest_write (syncRequestOf grp gen leader A) hok []
+  rw [List.append_nil] at hreq
+  refine ⟨_, hreq, ⟨a.1, KV.GroupWire.writeAssignment ⟨1, a.2, none⟩⟩, ?_, ?_⟩
+  · simp only [syncRequestOf, List.find?_map]
+    have : ((fun x : syncGroupRequestGroupAssignmentV0 => x.MemberID == m) ∘
+        fun a : Bytes × List (Bytes × List Int) => (⟨a.1, KV.GroupWire.writeAssignment ⟨1, a.2, none⟩⟩ : syncGroupRequestGroupAssignmentV0))
+        = (fun x => x.1 == m) := rfl
+    rw [this, hfind]; rfl
+  · have hresp := syncGroupResponseV0.read_write ⟨0, KV.GroupWire.writeAssignment ⟨1, a.2, none⟩⟩
+      ⟨by constructor <;> simp, ha.2.2.2⟩ []
+    rw [List.append_nil] at hresp
+    refine ⟨_, hresp, ?_⟩
+    have := KV.GroupWireRd.readAssignment_write a.2 ha.2.1 ha.2.2.1 []
+    rwa [List.append_nil] at this
+
+/-- the other direction of the round: the leader reads back, from the JoinGroup answer, exactly the member ids and the
+metadata (version, topic list in listing order, user data) every member wrote -/
+theorem join_wire_delivery (t : joinGroupResponse) (R : List (Bytes × groupMetadata))
+    (hM : t.Members = R.map fun r => ⟨r.1, groupMetadata.writeTo r.2⟩) (hok : joinGroupResponse.Ok t)
+    (hmd : ∀ r ∈ R, groupMetadata.Ok r.2) :
+    joinGroupResponse.readFrom (joinGroupResponse.zero t.v) (joinGroupResponse.writeTo t) = some (t, []) ∧
+    t.Members.map (fun x => (x.MemberID, groupMetadata.readFrom groupMetadata.zero x.MemberMetadata)) =
+      R.map (fun r => (r.1, some (r.2, []))) := by
+  constructor
+  · have := joinGroupResponse.read_write t hok []
+    rwa [List.append_nil] at this
+  · rw [hM, List.map_map]
+    apply List.map_congr_left
+    intro r hr
+    have := groupMetadata.read_write r.2 (hmd r hr) []
+    rw [List.append_nil] at this
+    simp [this]
+
+end Wire
 
 end KV.C14
